@@ -224,6 +224,7 @@ def lvB (env : Env) : Expr → Bool
   | .var k n => plainIdB n && (match env.resolveVar n with | .var k' n' => decide (k' = k) && decide (n' = n) | _ => false)
   | .the t k as => fragEB env (.the t k as)
   | .oprop n o => fragEB env (.oprop n o)
+  | .movie n => fragEB env (.movie n)
   | _ => false
 
 theorem lvB_spec (env : Env) (lv : Expr) (h : lvB env lv = true) : LvOk env lv := by
@@ -241,6 +242,9 @@ theorem lvB_spec (env : Env) (lv : Expr) (h : lvB env lv = true) : LvOk env lv :
     simp only [lvB] at h
     exact Or.inr ⟨rfl, fragEB_spec env _ h⟩
   | oprop n o =>
+    simp only [lvB] at h
+    exact Or.inr ⟨rfl, fragEB_spec env _ h⟩
+  | movie n =>
     simp only [lvB] at h
     exact Or.inr ⟨rfl, fragEB_spec env _ h⟩
   | _ => simp [lvB] at h
